@@ -28,33 +28,35 @@ S1 == <<1,0,0,0,1>>
 SI == <<0,0,1,0,1>>                      \* i = z^2
 SZ(n) == <<n,0,0,0,1>>
 
+Abs(n) == IF n < 0 THEN -n ELSE n
+RECURSIVE Gcd(_,_)
+Gcd(a,b) == IF b = 0 THEN a ELSE Gcd(b, a % b)
+SNorm(x) == LET g == Gcd(Gcd(Gcd(Gcd(Abs(x[1]),Abs(x[2])),Abs(x[3])),Abs(x[4])),x[5])
+            IN IF g <= 1 THEN x ELSE <<x[1] \div g, x[2] \div g, x[3] \div g, x[4] \div g, x[5] \div g>>
+
 SIsZero(x) == x[1] = 0 /\ x[2] = 0 /\ x[3] = 0 /\ x[4] = 0
 SEq(x,y) == /\ x[1]*y[5] = y[1]*x[5] /\ x[2]*y[5] = y[2]*x[5]
             /\ x[3]*y[5] = y[3]*x[5] /\ x[4]*y[5] = y[4]*x[5]
 SNeg(x) == <<-x[1],-x[2],-x[3],-x[4],x[5]>>
 SAdd(x,y) == IF SIsZero(x) THEN y ELSE IF SIsZero(y) THEN x ELSE
              IF x[5] = y[5] THEN <<x[1]+y[1],x[2]+y[2],x[3]+y[3],x[4]+y[4],x[5]>>
-             ELSE <<x[1]*y[5]+y[1]*x[5], x[2]*y[5]+y[2]*x[5],
-                    x[3]*y[5]+y[3]*x[5], x[4]*y[5]+y[4]*x[5], x[5]*y[5]>>
+             ELSE SNorm(<<x[1]*y[5]+y[1]*x[5], x[2]*y[5]+y[2]*x[5],
+                          x[3]*y[5]+y[3]*x[5], x[4]*y[5]+y[4]*x[5], x[5]*y[5]>>)
 SSub(x,y) == SAdd(x,SNeg(y))
-SMul(x,y) == IF SIsZero(x) \/ SIsZero(y) THEN S0 ELSE
+SMulRaw(x,y) ==
              << x[1]*y[1] - x[2]*y[4] - x[3]*y[3] - x[4]*y[2],
                 x[1]*y[2] + x[2]*y[1] - x[3]*y[4] - x[4]*y[3],
                 x[1]*y[3] + x[2]*y[2] + x[3]*y[1] - x[4]*y[4],
                 x[1]*y[4] + x[2]*y[3] + x[3]*y[2] + x[4]*y[1],
                 x[5]*y[5] >>
+SMul(x,y) == IF SIsZero(x) \/ SIsZero(y) THEN S0 ELSE
+             (IF x[5] = 1 /\ y[5] = 1 THEN SMulRaw(x,y) ELSE SNorm(SMulRaw(x,y)))
 SConj(x) == <<x[1],-x[4],-x[3],-x[2],x[5]>>
 SScale(n,x) == <<n*x[1],n*x[2],n*x[3],n*x[4],x[5]>>
 SDiv(x,n) == IF n > 0 THEN <<x[1],x[2],x[3],x[4],x[5]*n>>
              ELSE <<-x[1],-x[2],-x[3],-x[4],x[5]*(-n)>>
 SIsReal(x) == x[3] = 0 /\ x[2] + x[4] = 0     \* imaginary part c + (b+d)/sqrt2 vanishes
 SIsRational(x) == x[2] = 0 /\ x[3] = 0 /\ x[4] = 0
-
-Abs(n) == IF n < 0 THEN -n ELSE n
-RECURSIVE Gcd(_,_)
-Gcd(a,b) == IF b = 0 THEN a ELSE Gcd(b, a % b)
-SNorm(x) == LET g == Gcd(Gcd(Gcd(Gcd(Abs(x[1]),Abs(x[2])),Abs(x[3])),Abs(x[4])),x[5])
-            IN IF g <= 1 THEN x ELSE <<x[1] \div g, x[2] \div g, x[3] \div g, x[4] \div g, x[5] \div g>>
 
 \* z^k for any integer k
 Zeta(k) == LET r == k % 8 IN
@@ -122,15 +124,16 @@ BasisOK(d) == \A a \in 0..(d*d-1) :
                       SEq(TrProd(Basis(d,a),Basis(d,b),d), IF a = b THEN SZ(BasisN(d,a)) ELSE S0)
                  /\ (a # 0 => SIsZero(MTr(Basis(d,a),d)))
 
-\* integer combination  sum_k u[k] B_k  (u : 0..d*d-1 -> Int) -- unnormalised coordinates
-RECURSIVE CombTo(_,_,_)
-CombTo(u,d,n) == IF n < 0 THEN MZero(d) ELSE MAdd(CombTo(u,d,n-1), MScale(u[n],Basis(d,n),d), d)
-Comb(u,d) == CombTo(u,d,d*d-1)
-
-\* scalar combination  sum_k u[k] B_k  (u : 0..d*d-1 -> Scalar)
-RECURSIVE CombSTo(_,_,_)
-CombSTo(u,d,n) == IF n < 0 THEN MZero(d) ELSE MAdd(CombSTo(u,d,n-1), MSMul(u[n],Basis(d,n),d), d)
-CombS(u,d) == CombSTo(u,d,d*d-1)
+\* scalar combination  sum_k u[k] B_k  (u : 0..d*d-1 -> Scalar), written entry by entry
+\* (equal to the fold of MAdd over MSMul(u[k],Basis(d,k)); CombOK checks that on the basis)
+DiagW(l,r) == IF r <= l THEN 1 ELSE IF r = l + 1 THEN -l ELSE 0      \* W_l[r][r], 1-based r
+CombS(u,d) == [r \in 1..d |-> [c \in 1..d |->
+     IF r < c THEN SSub(u[d*(r-1)+(c-1)], SMul(SI, u[d*(c-1)+(r-1)]))
+     ELSE IF r > c THEN SAdd(u[d*(c-1)+(r-1)], SMul(SI, u[d*(r-1)+(c-1)]))
+     ELSE SAdd(u[0], SumTo([l \in 1..(d-1) |-> SScale(DiagW(l,r), u[d*l+l])], d-1))]]
+\* integer combination (u : 0..d*d-1 -> Int) -- unnormalised coordinates
+Comb(u,d) == CombS([k \in 0..(d*d-1) |-> SZ(u[k])], d)
+CombOK(d) == \A k \in 0..(d*d-1) : MEq(Comb([x \in 0..(d*d-1) |-> IF x = k THEN 1 ELSE 0], d), Basis(d,k), d)
 
 \* unnormalised coordinate of a Hermitian matrix along B_k:  Tr(A B_k)/n_k  (as a scalar)
 Coord(A,d,k) == SDiv(TrProd(A,Basis(d,k),d), BasisN(d,k))
